@@ -26,9 +26,9 @@ RULE = ("rle leg: rlencode(a, chunksize=c) for EVERY array over {0,1,2} of lengt
         "reference state (dict-sum merge, block-aggregate coarsening); big leg (thorough): three dense-upper coolers with 1450 bins "
         "(1,051,975 pixels) whose row runs straddle / start at / end at pixel row 1,000,000. Non-trivial: the transition writes a "
         "collection with >=2 pixels. Distinct by construction (state dedup by canonical reference state).")
-BOUNDS = {"quick": "hist depth 2; one 6000-contig table (integer chromosome column) through each of 7 producing routes; coarsen and zoomify with nproc=2 under every completion order of each pool batch (deviation bound 1)", "thorough": "hist depth 3 + the three 1e6-row boundary coolers + the 6000-contig table; pool orders with deviation bound 2"}
+BOUNDS = {"quick": "hist depth 2; every table of BT(3,4,W) in two name flavours created and coarsened by 2; one 6000-contig table (integer chromosome column) through each of 7 producing routes; coarsen and zoomify with nproc=2 under every completion order of each pool batch (deviation bound 1)", "thorough": "hist depth 3 + every table of BT(3,5,W) + the three 1e6-row boundary coolers + the 6000-contig table; pool orders with deviation bound 2"}
 ASSUMPTIONS = ["V is written against docs/schema_v3.rst with raw h5py only", "two files with the same reference state have the same futures under the alphabet"]
-EXPECT_CLASSES = {"*": ["manycontigs:integer-chromosome-column", "rle", "index", "op:create", "op:create-unordered", "op:merge", "op:coarsen", "op:zoomify", "op:scool", "op:load", "op:cload"]}
+EXPECT_CLASSES = {"*": ["alltables:fixed", "alltables:variable", "manycontigs:integer-chromosome-column", "rle", "index", "op:create", "op:create-unordered", "op:merge", "op:coarsen", "op:zoomify", "op:scool", "op:load", "op:cload"]}
 
 TAB = {"A": ((1, 1, 1, 1), (1, 1)), "B": ((1, 3), (2, 1, 1))}
 DATA = {
@@ -63,6 +63,10 @@ def units(tier):
                 yield {"leg": "hist", "first": ["C", p, d, ordered], "depth": depth}
     for perm in range(6):
         yield {"leg": "seqtables", "perm": perm}
+    ntab = len(alpha.bin_tables(3, 5 if tier == "thorough" else 4))
+    for names in ("abc", "chr"):
+        for lo in range(0, ntab, 60):
+            yield {"leg": "alltables", "names": names, "lo": lo, "hi": min(ntab, lo + 60), "B": 5 if tier == "thorough" else 4}
     for route in ("ordered", "unordered", "merge", "coarsen", "zoomify", "scool", "load"):
         yield {"leg": "manycontigs", "route": route}
     for op in ("coarsen", "zoomify"):
@@ -413,6 +417,43 @@ def _seqtables(R, perm, only):
         scratch.rm(p)
 
 
+def _alltables(R, unit, only):
+    """EVERY bin table of BT(3,B,{1,2,3}) (one-bin contigs before / between / after multi-bin ones, shorter and LONGER last bins,
+    variable widths; names whose lexical order agrees / disagrees with the table order): created directly and coarsened by 2
+    (a second route to a bin table); V on both - in particular 'recorded bin type and bin size agree with the stored tables'."""
+    import cooler
+    tabs = alpha.bin_tables(3, unit["B"])[unit["lo"]:unit["hi"]]
+    p = scratch.fresh()
+    try:
+        for q, t in enumerate(tabs):
+            bins = alpha.table_bins(t, unit["names"])
+            n = len(bins)
+            inner = {"table": [list(c) for c in t]}
+            if only is not None and only.get("table") != inner["table"]:
+                continue
+            R.order = (R.order[0], q)
+            R.add("states")
+            R.add("traces")
+            R.ev(2, 2)
+            R.add("transitions", 2)
+            R.cls("alltables:" + ("fixed" if models.ref_true_binsize(bins) is not None else "variable"))
+            pix = {(0, 0): 1, (0, n - 1): 2, (n - 1, n - 1): 3, (n // 2, n - 1): 4}
+            try:
+                cooler.create_cooler(p, build.bins_df(bins), pixframe(pix), ordered=True, mode="w")
+                cooler.coarsen_cooler(p, p + "::/k2", 2, chunksize=1000000)
+            except Exception as e:
+                R.mismatch("operation-raises:" + type(e).__name__, inner, f"{e!s:.200}")
+                continue
+            for grp in ("/", "/k2"):
+                v = h5ref.validate(p, grp)
+                if v:
+                    R.mismatch("V:" + v[0].split(":")[1], {**inner, "group": grp}, f"{v}")
+            with h5py.File(p, "r") as f:
+                R.outcome((str(f.attrs["bin-type"]), str(f.attrs["bin-size"]), str(f["k2"].attrs["bin-type"])))
+    finally:
+        scratch.rm(p)
+
+
 def _big(R, k, only):
     """dense upper matrix on 1450 bins: 1,051,975 pixels; pixel row 1,000,000 falls inside the run of one bin1 value. The value
     layout is shifted so that a run straddles / starts at / ends at row 1e6."""
@@ -628,5 +669,7 @@ def run(unit, R, tier, only=None):
         _pool_order(R, unit, tier, only)
     elif leg == "seqtables":
         _seqtables(R, unit["perm"], only)
+    elif leg == "alltables":
+        _alltables(R, unit, only)
     else:
         raise ValueError(leg)
